@@ -23,7 +23,8 @@ const ASCII_WORDS: [&str; 24] = [
 ];
 /// names that mean something to some layer of some stack (registered JWT / VC claim names, JSONPath and JSON Pointer syntax,
 /// URL escapes): to this library they are ordinary member names
-pub const NOTABLE_NAMES: [&str; 30] = [
+pub const NOTABLE_NAMES: [&str; 36] = [
+    "x\"_sd", "said \"...", "\"_sd\":", "_sd\"", "..", "_sd_",
     "status", "vct", "jti", "nonce", "sd_hash", "typ", "alg", "kid", "jwk", "x5c", "type", "@context", "$", "$ref", "@", "*", "#", "..",
     "~0", "~1", "a~1b", "PROGRA~1", "a/b", "%2F", "%7E", "key with spaces", "0", "-1", "true", "null",
 ];
@@ -121,10 +122,26 @@ pub fn gen_value(r: &mut Rng, cfg: &TreeCfg, depth: usize) -> Value {
         return gen_leaf(r, cfg.plain);
     }
     if r.chance(1, 2) {
-        Value::Object(gen_members(r, cfg, depth + 1))
+        let mut m = gen_members(r, cfg, depth + 1);
+        // now and then two members carry the very same (possibly large) value
+        if !cfg.plain && m.len() >= 1 && r.chance(1, 10) {
+            let v = if r.chance(1, 2) { json!("L".repeat(r.range(500, 2000))) } else { m.values().next().cloned().unwrap_or(Value::Null) };
+            m.insert("twin_a".into(), v.clone());
+            m.insert("twin_b".into(), v);
+        }
+        Value::Object(m)
     } else {
         let n = if r.chance(1, 8) { 0 } else { r.range(1, cfg.max_fanout) };
-        Value::Array((0..n).map(|_| gen_value(r, cfg, depth + 1)).collect())
+        let mut a: Vec<Value> = (0..n).map(|_| gen_value(r, cfg, depth + 1)).collect();
+        // now and then an element is repeated (equal rows, equal inner lists, equal large strings)
+        if !a.is_empty() && r.chance(1, 6) {
+            let x = if r.chance(1, 4) { json!({"name": "row", "blob": "B".repeat(r.range(500, 1500)), "n": [1, 2]}) } else { a[r.below(a.len())].clone() };
+            a.push(x.clone());
+            if r.chance(1, 2) {
+                a.insert(0, x);
+            }
+        }
+        Value::Array(a)
     }
 }
 
